@@ -391,6 +391,47 @@ fn kernel_code<T: Smp>(which: &str) -> usize {
     }
 }
 
+/// A hand-written implementation of the public `SincInterpolator` trait, as a user of `new_with_interpolator` may supply:
+/// any number of taps (odd ones included, which the bundled kernels never have), plain sequential dot product.
+struct PlainInterpolator<T> {
+    sincs: Vec<Vec<T>>,
+    len: usize,
+}
+
+impl<T: Smp> SincInterpolator<T> for PlainInterpolator<T> {
+    fn get_sinc_interpolated(&self, wave: &[T], index: usize, subindex: usize) -> T {
+        let w = &wave[index..index + self.len];
+        let mut acc = T::zero();
+        for (a, b) in w.iter().zip(self.sincs[subindex].iter()) {
+            acc = acc + *a * *b;
+        }
+        acc
+    }
+    fn len(&self) -> usize {
+        self.len
+    }
+    fn nbr_sincs(&self) -> usize {
+        self.sincs.len()
+    }
+}
+
+fn plain_ip<T: Smp>(len: usize, factor: usize, fcut: f32) -> PlainInterpolator<T> {
+    let mut sincs = Vec::new();
+    for sub in 0..factor {
+        let mut row = Vec::new();
+        for i in 0..len {
+            // Hann-windowed sinc centred on tap len/2, shifted by sub/factor of a sample (newest sample first, like the crate)
+            let x = (i as f64) - (len / 2) as f64 + (sub as f64) / (factor as f64);
+            let a = std::f64::consts::PI * x * fcut as f64;
+            let sinc = if a == 0.0 { 1.0 } else { a.sin() / a };
+            let w = 0.5 + 0.5 * (std::f64::consts::PI * x / ((len as f64) / 2.0 + 1.0)).cos();
+            row.push(to_t::<T>(fcut as f64 * sinc * w));
+        }
+        sincs.push(row);
+    }
+    PlainInterpolator { sincs, len }
+}
+
 fn make_ip<T: Smp>(which: &str, m: &HashMap<String, String>) -> Box<dyn SincInterpolator<T>> {
     let slen = geti(m, "slen");
     let factor = geti(m, "factor");
@@ -403,6 +444,7 @@ fn make_ip<T: Smp>(which: &str, m: &HashMap<String, String>) -> Box<dyn SincInte
         "scalar" => Box::new(ScalarInterpolator::<T>::new(slen, factor, fcut, win)),
         "sse" => Box::new(SseInterpolator::<T>::new(slen, factor, fcut, win).unwrap()),
         "avx" => Box::new(AvxInterpolator::<T>::new(slen, factor, fcut, win).unwrap()),
+        "plain" => Box::new(plain_ip::<T>(slen, factor, fcut)),
         w => panic!("unknown interpolator {}", w),
     }
 }
@@ -474,6 +516,31 @@ fn gen_signal<T: Smp>(sig: &str, chan: usize, start: u64, n: usize) -> Vec<T> {
                 .collect()
         }
         "const" => vec![to_t::<T>(f64::from_hex(parts[1])); n],
+        "bump" => {
+            // bump:<centre>:<width>: a smooth pulse exp(-((x - centre) / width)^2), wide enough to survive decimation
+            let pos: f64 = parts[1].parse().unwrap();
+            let w: f64 = parts[2].parse().unwrap();
+            (0..n)
+                .map(|i| {
+                    let d = ((start + i as u64) as f64 - pos) / w;
+                    to_t::<T>((-d * d).exp())
+                })
+                .collect()
+        }
+        "tiny" => {
+            // tiny:<seed>: random values in the subnormal range of the sample type (and a few normal ones just above it)
+            let seed: u64 = parts[1].parse().unwrap();
+            (0..n)
+                .map(|i| {
+                    let mut st = seed
+                        ^ ((chan as u64 + 1).wrapping_mul(0xD1B54A32D192ED03))
+                        ^ (start + i as u64).wrapping_mul(0x2545F4914F6CDD1D);
+                    let u = (splitmix(&mut st) >> 11) as f64 / (1u64 << 53) as f64;
+                    let scale = if std::mem::size_of::<T>() == 4 { 2.0f64.powi(-127) } else { 2.0f64.powi(-1023) };
+                    to_t::<T>((2.0 * u - 1.0) * 3.0 * scale)
+                })
+                .collect()
+        }
         "poly" => {
             let cs: Vec<f64> = parts[1..].iter().map(|h| f64::from_hex(h)).collect();
             (0..n)
@@ -1112,6 +1179,11 @@ fn run<T: Smp>(lines: &[String], hist: std::fs::File, migrate: bool, tid: usize)
                     if other.r.is_some() {
                         let l2 = "PIB mask=- inlen=next outlen=max sig=rand:1";
                         do_op(&mut other, "PIB", l2, &kv(l2));
+                        // ... including calls that are rejected (error paths of the other instance run on this thread too)
+                        let l3 = "PIB mask=- inlen=~ outlen=max sig=rand:1";
+                        do_op(&mut other, "PIB", l3, &kv(l3));
+                        let l4 = "PIB mask=- inlen=max outlen=abs:0 sig=rand:1";
+                        do_op(&mut other, "PIB", l4, &kv(l4));
                     }
                 }));
                 SINK.with(|k| *k.borrow_mut() = saved);
